@@ -1,8 +1,8 @@
 #!/bin/bash
-# all_checks.sh <tier> <seed> : run every check once, print one line per property
-TIER=${1:-quick}; SEED=${2:-1}
+# all_checks.sh <tier> <seed> [first] [last] : run every check (or C<first>..C<last>) once, print one line per property
+TIER=${1:-quick}; SEED=${2:-1}; FIRST=${3:-1}; LAST=${4:-20}
 cd "$(dirname "$0")/.."
-for i in $(seq -w 1 20); do
+for i in $(seq -f "%02g" $FIRST $LAST); do
   p=C$i
   s=$(date +%s)
   VERIF_SEED=$SEED ./check $p --tier $TIER > /tmp/all_${TIER}_${SEED}_$p.log 2>&1; rc=$?
